@@ -24,7 +24,7 @@ func constI(p *core.Prog, rel, name string) (int64, bool) {
 
 func c22(r *core.Run) {
 	r.Expl = "C22 (flow orientation independent of the first packet): decides, by evaluating the comparison-only heuristics over a complete set of representatives of the order types of their inputs (port bytes relative to each other and to the constants in the code), (1) classifyByPortsV4/V6: for every pair of different ports the verdict for (source, destination) and for the mirrored packet are opposite (remains <-> reverts), so a conversation is oriented the same way whichever side is seen first; (2) TCP: for all 256 flag bytes a SYN without ACK remains, a SYN with ACK reverts — whatever other flags are set — and everything else is decided by the ports; ICMP/ICMPv6: for all 256 type values requests (RFC 792: 8, 13; RFC 4443: 128) remain and the listed replies / errors revert, everything else is unknown; IPv4 and IPv6 classifiers agree; (3) at all four insertion sites of addToFlowLogV4/V6 a 'reverts' verdict inserts the flow under the reversed key and any other verdict under the key itself; EPHash.Reverse swaps exactly the (address, port) halves and keeps the protocol. NOT decided: heuristics beyond these tables (broadcast/multicast addresses are treated as given), conversations whose two ports are equal (documented tie)."
-	r.Floor = 11
+	r.Floor = 9
 	r.Rules = append(r.Rules, "mirror-symmetry (P7: interpretation over order-type representatives)", "flag-and-type-tables (P4, exhaustive over the byte domain)", "reversed-insertion", "hash-reversal layout (P5)")
 	p := r.Prog("cgo")
 	for _, v := range []string{"V4", "V6"} {
